@@ -469,6 +469,55 @@ class Explorer:
                     out.append((f"{an}.{nm}", f"private table serves {_short(got)}, public serves {_short(want)}"))
         return out
 
+    def stable_across_later_init(self):
+        """Objects served for the atoms of the public table and of an initialised private table T1 are still the same objects
+        after a later table T2 is created and initialised (only objects that are stable between two plain reads count: a
+        getter that builds a new value on every access keeps nothing a later init could lose)."""
+        lw, reg, I = self.lw, self.reg, self.I
+        if not self.tables:
+            return []
+        lw.restore(self.base)
+        A = lw.atoms(lw.P)
+        lw.read(A["Fe"], reg.names[0])
+        T1 = self.tables[0]
+        try:
+            lw.init_call(reg.key, T1)()
+        except SymRaise:
+            return []
+        holders = {"elements": A, "T1": lw.atoms(T1)}
+        held = {}
+        for tn, AT in holders.items():
+            for an, a in AT.items():
+                for nm in reg.names:
+                    try:
+                        v = I.getattr(a, nm)
+                        again = I.getattr(a, nm)
+                    except (SymRaise, AnalysisError):
+                        continue
+                    # (objects only: the abstract heap copies plain containers when it merges states, so their identity
+                    #  says nothing; an object's handle is stable)
+                    if isinstance(v, SymObj) and again is v \
+                            and not (v.cls is not None and v.cls.name in ("Element", "Isotope", "Ion", "PeriodicTable")):
+                        # served from a class-level default (one object for every data-less atom) or the atom's own object?
+                        dflt = any(I.classes[cq].attrs.get(nm) is v for cq in ("core.Element", "core.Isotope", "core.Ion") if cq in I.classes)
+                        held[(tn, an, nm)] = (v, dflt)
+        T2 = lw.new_private(f"T_later_{reg.key}")
+        try:
+            lw.init_call(reg.key, T2)()
+        except SymRaise as e:
+            return [("init", "later table", f"raises {e.exc}")]
+        out = []
+        for (tn, an, nm), (v, dflt) in held.items():
+            try:
+                v2 = I.getattr(holders[tn][an], nm)
+            except SymRaise as e:
+                out.append((tn, an, nm, f"raises {e.exc}", dflt))
+                continue
+            if v2 is not v:
+                out.append((tn, an, nm, "a different object", dflt))
+        self.held_objects = len(held)
+        return out
+
     def shared_mutables(self):
         """Mutable objects reachable from the data of both the public and a private table (after both are loaded)."""
         lw, reg, I = self.lw, self.reg, self.I
